@@ -141,10 +141,13 @@ class ModelViolation(Exception):
         self.module, self.cfg, self.text = module, cfg, text
 
 
+RUN_ENV = {}   # extra environment for the harness processes (e.g. YOMM2_TRACE=1)
+
+
 def _run_one(args):
     exe, sp, tp, timeout = args
-    rc, outp = C.sh([exe, sp, tp], timeout=timeout)
-    return rc, outp
+    rc, outp = C.sh([exe, sp, tp], timeout=timeout, env=dict(RUN_ENV) if RUN_ENV else None)
+    return rc, outp[-4000:]
 
 
 def run_dyn(exe, script_text, tag, timeout=3000, parallel=True):
